@@ -122,10 +122,16 @@ pub fn reachable<V>(s: &Snapshot<'_, Key, V>) -> std::collections::HashSet<usize
                     addr,
                     nodes,
                     waiter,
+                    in_order,
                     ..
                 } => {
                     r.insert(*addr);
                     r.insert(*waiter);
+                    if let Some(io) = in_order {
+                        for a in io {
+                            r.insert(*a);
+                        }
+                    }
                     for n in nodes {
                         r.insert(n.addr);
                         r.insert(n.value_addr);
